@@ -62,7 +62,7 @@ Section Complete.
   Variable s : db.
   Variable f : afilter.
   Variable screen : aevent -> sres.
-  Hypothesis HA : AInv s.
+  Hypothesis HA : StoreInv s.
   Let L := log s.
   Let c := committed s.
 
@@ -328,7 +328,7 @@ Section Plans.
   Variable s : db.
   Variable f : afilter.
   Variable screen : aevent -> sres.
-  Hypothesis HA : AInv s.
+  Hypothesis HA : StoreInv s.
   Let L := log s.
   Let c := committed s.
   Hypothesis Huntil : f_until f <= U64MAX.
@@ -606,7 +606,7 @@ Definition limit_exceeds_store (s : db) (f : afilter) : Prop :=
   let c := committed s in forall T, In T [t_ci c; t_ac c; t_akc c; t_tc c; t_atc c; t_ktc c] -> len T < f_limit f.
 
 Theorem find_events_exact s f screen now allow_scraping allow_limit allow_seconds out red :
-  AInv s -> filter_ok f -> limit_exceeds_store s f ->
+  StoreInv s -> filter_ok f -> limit_exceeds_store s f ->
   find_events s f screen now allow_scraping allow_limit allow_seconds = Ok (out, red) ->
   forall x, In x out <-> cqual s f screen x.
 Proof.
@@ -644,7 +644,7 @@ Corollary find_events_exact_reachable ops names f screen now allow_scraping allo
   find_events s f screen now allow_scraping allow_limit allow_seconds = Ok (out, red) ->
   forall x, In x out <-> (get_event_by_id s (e_id x) = Ok (Some x) /\ spec_matches f x = true /\ screen x = SMatch).
 Proof.
-  intros Hops s Hf Hb H x. pose proof (c_run_AInv ops _ Hops (AInv_init names)) as HA. fold s in HA.
+  intros Hops s Hf Hb H x. pose proof (c_run_StoreInv ops _ Hops (StoreInv_init names)) as HA. fold s in HA.
   rewrite (find_events_exact s f screen now allow_scraping allow_limit allow_seconds out red HA Hf Hb H x).
   unfold cqual, clive. destruct HA as (_ & Hid & _).
   split; intros (Hl & Hm & Hs); (split; [|split; assumption]).
